@@ -21,6 +21,7 @@ type termStream struct {
 	ID    string
 	Bytes []byte
 	Ends  []int // offsets just past each syntactic unit (cut classes only)
+	Want  int   // > 0: the number of RESP reply frames the stream must produce (one per command)
 }
 
 func (t *termStream) cmd(p wire.Proto, args ...string) *termStream {
@@ -68,6 +69,24 @@ func terminalStreams() []*termStream {
 		t.cmd(p, "PING").cmd(p, "QUIT").cmd(p, "ECHO", "never")
 		out = append(out, t)
 	}
+	// inline commands ended by a bare LF (what `echo PING | nc` sends), also with first letters that
+	// could start an HTTP request line
+	lf := &termStream{ID: "telnet-bare-lf"}
+	for _, l := range []string{"PING", "GET nokey noid", "ECHO x", "OUTPUT resp", "DEL tk2 zz", "SET tk2 a POINT 1 2", "GET tk2 a", "OUTPUT resp", "PING"} {
+		lf.raw(l + "\n")
+		lf.Want++
+	}
+	out = append(out, lf)
+	lf = &termStream{ID: "telnet-mixed-line-ends"}
+	for i, l := range []string{"PING", "GET nokey noid", "SET tk3 a POINT 1 2", "PING", "GET tk3 a", "ECHO y"} {
+		if i%2 == 0 {
+			lf.raw(l + "\n")
+		} else {
+			lf.raw(l + "\r\n")
+		}
+		lf.Want++
+	}
+	out = append(out, lf)
 	t := &termStream{ID: "telnet-unbalanced-quote-tail"}
 	t.cmd(wire.Telnet, "PING").cmd(wire.Telnet, "ECHO", "x").raw("ECHO \"abc\r\nPING\r\n")
 	out = append(out, t)
@@ -144,6 +163,14 @@ func (ck *checker) partTerminal() {
 		}
 		ctx.Eval(1)
 		ctx.Count("terminal_streams", 1)
+		if t.Want > 0 {
+			fr, rest, ferr := wire.SplitAll(wire.RESP, b1)
+			if len(fr) != t.Want || len(rest) > 0 || ferr != nil {
+				ck.report("count-terminal:"+t.ID, fmt.Sprintf("stream %s (%q) holds %d commands and is answered with %d reply frames (%d unparsed bytes) when sent in one write: %q", t.ID, clip(string(t.Bytes)), t.Want, len(fr), len(rest), clip(string(b1))),
+					map[string]any{"stream": t.ID, "bytes": string(t.Bytes), "replies": string(b1)})
+				continue
+			}
+		}
 		if t.ID == "resp-pubsub" {
 			ctx.Sample(map[string]any{"terminal_stream": t.ID, "bytes": clip(string(t.Bytes)), "baseline_reply_bytes": clip(string(b1))})
 		}
